@@ -269,7 +269,11 @@ pub fn write_ink_list(list: &InkList) -> serde_json::Value {
     // An empty list still remembers which list definitions it came from
     // (LIST_ALL / LIST_INVERT need them); write them as the reference engine does.
     if list.items.is_empty() {
-        let origin_names = list.get_origin_names();
+        // The names come out of a hash map (one per former item): write each
+        // once, in a fixed order, so that equal states give equal saves.
+        let mut origin_names = list.get_origin_names();
+        origin_names.sort();
+        origin_names.dedup();
         if !origin_names.is_empty() {
             jobj.insert("origins".to_owned(), json!(origin_names));
         }
